@@ -33,8 +33,8 @@ ASSUMPTIONS = [
     "the snapshot of vlib.snapshot lists exactly the documented compared fields (all attributes, containment, payloads, entry points, expressions with attributes, edges with labels, IR version, AuxData key sets)",
 ]
 REQUIRED_TAGS = {
-    "quick": ["inplace-edit", "noise-history", "pert:block.kind", "pert:module.swap-order", "pert:aux.value", "pert:aux.key-rename", "pert:ir.version", "pert:edge.label", "pert:expr.attr", "pert:node.uuid", "expected:differs", "expected:equal"],
-    "thorough": ["inplace-edit", "noise-history", "pert:block.kind", "pert:module.swap-order", "pert:aux.value", "pert:aux.key-rename", "pert:ir.version", "pert:edge.label", "pert:expr.attr", "pert:node.uuid", "expected:differs", "expected:equal"],
+    "quick": ["pert:interval.contents-length", "inplace-edit", "noise-history", "pert:block.kind", "pert:module.swap-order", "pert:aux.value", "pert:aux.key-rename", "pert:ir.version", "pert:edge.label", "pert:expr.attr", "pert:node.uuid", "expected:differs", "expected:equal"],
+    "thorough": ["pert:interval.contents-length", "inplace-edit", "noise-history", "pert:block.kind", "pert:module.swap-order", "pert:aux.value", "pert:aux.key-rename", "pert:ir.version", "pert:edge.label", "pert:expr.attr", "pert:node.uuid", "expected:differs", "expected:equal"],
 }
 
 
